@@ -806,8 +806,9 @@ async fn main() -> Result<()> {
         }
     }
 
-    // A run in which a planned operation failed must not report success to the caller.
-    if !stats.errors.is_empty() {
+    // A run in which a planned operation failed must not report success to the caller -- nor one
+    // in which a file that was just transferred does not verify against its source.
+    if !stats.errors.is_empty() || stats.verification_failures > 0 {
         std::process::exit(1);
     }
 
